@@ -10,6 +10,9 @@
 (assert (forall ((k Str) (p Str)) (! (=> (hasprefix k p) (ble p k)) :pattern ((hasprefix k p)))))
 (assert (forall ((a Str) (b Str) (c Str) (p Str)) (! (=> (and (hasprefix a p) (hasprefix c p) (ble a b) (ble b c)) (hasprefix b p))
    :pattern ((hasprefix a p) (hasprefix c p) (ble a b) (ble b c)))))
+; the same with the prefix itself as the lower end (the shape a Seek(p) scan produces)
+(assert (forall ((b Str) (c Str) (p Str)) (! (=> (and (hasprefix c p) (ble p b) (ble b c)) (hasprefix b p))
+   :pattern ((hasprefix c p) (ble p b) (ble b c)))))
 ; serialised form of a protobuf message (proto.Marshal), abstract
 (declare-fun pmarshal (Any) Str)
 ; keys of the secondary index live in their own key families (first component f, t, i or D)
